@@ -13,6 +13,7 @@ import (
 	"os"
 	"os/exec"
 	"path/filepath"
+	"regexp"
 	"sort"
 	"strings"
 
@@ -132,6 +133,43 @@ func classify(cs Case, env *gobl.Envelope) string {
 	return ""
 }
 
+// customerRatesWithAddon: the `customer-rates` tag makes calculate() assign the
+// customer's country to every combo AFTER the normalisers have run, so a
+// normaliser that looks at the combo country (pt-saft-v1: tax-rate NOR vs OUT)
+// sees a different document on the next calculation.
+func customerRatesWithAddon(data []byte) bool {
+	var d struct {
+		Tags   []string `json:"$tags"`
+		Addons []string `json:"$addons"`
+		Doc    *struct {
+			Tags   []string `json:"$tags"`
+			Addons []string `json:"$addons"`
+		} `json:"doc"`
+	}
+	if json.Unmarshal(data, &d) != nil {
+		return false
+	}
+	tags, addons := d.Tags, d.Addons
+	if d.Doc != nil {
+		tags, addons = append(tags, d.Doc.Tags...), append(addons, d.Doc.Addons...)
+	}
+	has := false
+	for _, t := range tags {
+		if t == "customer-rates" {
+			has = true
+		}
+	}
+	if !has {
+		return false
+	}
+	for _, a := range addons {
+		if a == "pt-saft-v1" {
+			return true
+		}
+	}
+	return false
+}
+
 func codeNotIdempotent(s string) bool {
 	n := cbc.NormalizeCode(cbc.Code(s))
 	return cbc.NormalizeCode(n) != n
@@ -248,11 +286,20 @@ func Run(c *core.Ctx) int {
 			c.Fail("", "calculated envelope does not serialise: "+err.Error(), cs)
 			continue
 		}
+		if cs.Doc != nil && hugeAmount.Match(b1) {
+			// a random document whose figures left the 2^52 / int64 domain of the
+			// decimal arithmetic (C05): outside what the property speaks about
+			c.Count("skipped:outside-magnitude-domain", 1)
+			continue
+		}
 		c.Eval(cs.Name, true)
 		if i%499 == 0 {
 			c.Sample(map[string]any{"name": cs.Name, "bytes": len(b1)})
 		}
 		cls := classify(cs, env)
+		if cls == "" && customerRatesWithAddon(cs.Data) {
+			cls = "c04.customerRatesThenCountryNormaliser"
+		}
 		if cls == "" {
 			if inv, ok := env.Extract().(*bill.Invoice); ok {
 				var raw struct {
@@ -354,6 +401,8 @@ func Run(c *core.Ctx) int {
 	}
 	return c.Finish("every file under /repo/examples (inputs and calculated outputs), every example invoice crossed with every registered addon (a quarter of the pairs in the quick tier), and random invoices of the C01 generator with random series/code; each calculated, serialised, parsed and recalculated three times with bytes and digests compared, parse/serialise identity, non-mutation by validate/digest/verify/extract, and a second process with GOMAXPROCS=1; every evaluated document is non-trivial; distinct by name", nil)
 }
+
+var hugeAmount = regexp.MustCompile(`"--[0-9]|[0-9]\.-[0-9]|"-?[0-9]{16,}`)
 
 var codeAlphabet = []string{"A", "B", "7", "0", "-", ".", "/", " ", "  ", "é", "_", "a", "x", "#", ",", "Z9"}
 
